@@ -221,8 +221,12 @@ def main(ck, tier, w):
         for h in range(n):
             txs = [btc.coinbase(h, None, outs=[{'val': r0.choice([50 * 10 ** 8, 50 * 10 ** 8 + 12345, 10 ** 8, 2 ** 40]), 'spk': spk(r0.choice(list(LABEL)), r0)}])]
             for k in range(r0.randrange(0, 4)):
-                txs.append({'ver': 1, 'ins': [{'txid': r0.randbytes(32), 'idx': 0, 'sig': r0.randbytes(r0.randrange(0, 200)), 'seq': 0}] * r0.randrange(1, 3),
-                            'outs': [{'val': r0.randrange(0, 2 ** 44), 'spk': r0.choice([spk(t, r0) for t in LABEL] + [b'\x51', b''])} for _ in range(r0.randrange(0, 5))],
+                # sizes on both sides of the CompactSize boundaries, so that a size computed from field widths must get them right;
+                # neighbouring transactions differ by single bytes, so that an error of 1-2 bytes changes which one is biggest
+                siglen = r0.choice([r0.randrange(0, 200), 251, 252, 253, 254, 255, 252, 253])
+                nout = r0.choice([r0.randrange(0, 5), r0.randrange(0, 5), 252, 253, 254])
+                txs.append({'ver': 1, 'ins': [{'txid': r0.randbytes(32), 'idx': 0, 'sig': r0.randbytes(siglen), 'seq': 0}] * r0.choice([1, 1, 2, 253]),
+                            'outs': [{'val': r0.randrange(0, 2 ** 44), 'spk': r0.choice([spk(t, r0) for t in LABEL] + [b'\x51', b''])} for _ in range(nout)],
                             'lock': k})
             b = datadir.mk_block(prev, txs, t=times[h], nonce=h)
             blocks.append(b)
